@@ -20,10 +20,12 @@ RULE = ("generated problems (states, algebraics, controls on own coarser grids w
         "after the end; der_at on knots, between knots, at t0 and before it; integral and states_in over "
         "windows with 0, 1 or several knots inside and end points on / off knots; map_path_expression of "
         "expressions over variables and derivatives; extract_results. non-trivial = a query off the knots or "
-        "outside the horizon; distinct = abstracted (problem, query) shapes")
+        "outside the horizon; distinct = abstracted (problem, query) shapes.  Metamorphic alias pass: every accessor "
+        "through a negated and a plain alias, windows starting inside the history, stored history compared before / after")
 MODELLED = ("collocated_integrated_optimization_problem.py extract_results, state_at, der_at, __states_times_in / "
             "states_in / integral (windows inside the horizon), map_path_expression")
-NOT_MODELLED = "alias names (C13/C14), constant inputs / parameters through state_at, windows reaching into the history, integrate_states"
+NOT_MODELLED = ("alias names and windows reaching into the history have no Coq model: they are checked metamorphically (answer through a "
+                "negated alias = negated answer, stored history unchanged); constant inputs / parameters through state_at, integrate_states")
 ASSUMPTIONS = ["histories contain no NaN in this check"]
 
 FEAT = {"history": True, "own_grid": True}
@@ -229,3 +231,96 @@ def run(ctx):
             else:
                 ctx.violation("accessor/" + q["kind"], rep,
                               what="%s(%s) = %s but the extracted results imply %s" % (q["kind"], {k: v2 for k, v2 in q.items() if k not in ("kind", "expr", "j")}, a if isinstance(a, str) else [round(x, 6) for x in a][:6], bq if isinstance(bq, str) else [round(float(x), 6) for x in bq][:6]))
+
+
+# ---- accessors through (negated) aliases, windows reaching into the history, and purity -----------------
+def alias_checks(ctx):
+    """metamorphic: an accessor asked through a negated alias returns the negated answer of the
+    variable itself (also for windows that start in the history), and no accessor call changes
+    the stored history"""
+    from rtctools.optimization.timeseries import Timeseries
+    rng = ctx.rng
+    for _ in range(ctx.n(25, 800)):
+        s = tr.gen_spec(rng, {"history": True, "own_grid": False})
+        coll = s["states"] + s["algebraics"] + s["controls"]
+        if not coll:
+            continue
+        v = rng.choice(coll)
+        times = [Fraction(t) for t in s["times"]]
+        E = s["ensemble_size"]
+        # a history of at least three points for v, for every member
+        hs = s.get("history") or [dict() for _ in range(E)]
+        for m in range(E):
+            k = rng.randint(3, 4)
+            ht = [times[0] - Fraction(k - 1 - i, 2) for i in range(k)]
+            hs[m][v] = {"times": [str(t) for t in ht], "values": [str(tr.dy(rng)) for _ in ht]}
+            for hv in hs[m].values():
+                hv["values"] = [x if x != "nan" else "1" for x in hv["values"]]
+        s["history"] = hs
+        # (canonical, alias): the variable itself stays the canonical name
+        s["aliases"] = [[v, "-neg_" + v], [v, "same_" + v]]
+        Base = problems.make_base(s)
+
+        class P(Base):
+            def history(self, ensemble_member):
+                # cached, like the real mixins do
+                if not hasattr(self, "_hist_cache"):
+                    self._hist_cache = {}
+                if ensemble_member not in self._hist_cache:
+                    self._hist_cache[ensemble_member] = super().history(ensemble_member)
+                return self._hist_cache[ensemble_member]
+        try:
+            p = P()
+            p.transcribe()
+        except Exception as e:  # noqa: BLE001
+            ctx.count("alias_impl_exception_" + type(e).__name__)
+            continue
+        nx = p.solver_input.shape[0]
+        Xf = [float(Fraction(rng.randint(-12, 12), rng.choice([1, 2, 4]))) for _ in range(nx)]
+        X = ca.DM(Xf)
+        before = {m: {k: (np.array(ts.times, copy=True), np.array(ts.values, copy=True)) for k, ts in p.history(m).items()} for m in range(E)}
+        m = rng.randrange(E)
+        h0 = Fraction(hs[m][v]["times"][0])
+        qs = []
+        for _ in range(6):
+            a = rng.choice([h0, h0 + Fraction(1, 4), times[0] - Fraction(1, 2), times[0], times[0] + (times[1] - times[0]) / 2])
+            b = rng.choice([t for t in times[1:]] + [times[-1] - (times[-1] - times[-2]) / 2])
+            if a < b:
+                qs.append(rng.choice([{"kind": "integral", "a": str(a), "b": str(b), "m": m}, {"kind": "states_in", "a": str(a), "b": str(b), "m": m}]))
+            t = rng.choice([h0, times[0] - Fraction(1, 4), times[0], times[-1], times[0] + (times[1] - times[0]) / 3])
+            qs.append({"kind": "state_at", "t": str(t), "m": m, "scaled": False, "extrapolate": True})
+            qs.append({"kind": "der_at", "t": str(rng.choice(times)), "m": m})
+        ctx.case_done(core.fingerprint(["alias", len(coll), E, v in s["states"], [q["kind"] for q in qs]]), True)
+        ctx.count("alias_cases")
+        for q in qs:
+            got = {}
+            for nm in (v, "neg_" + v, "same_" + v):
+                got[nm] = impl_query(p, s, dict(q, v=nm), X, Xf)
+            rep = {"spec": s, "query": q, "variable": v, "answers": got, "X": Xf}
+            base = got[v]
+            if isinstance(base, str) or base is None:
+                if got["neg_" + v] != base or got["same_" + v] != base:
+                    ctx.violation("alias/raise-differs", rep, what="%s through an alias behaves differently: %s" % (q["kind"], got))
+                continue
+            for nm, sg in (("neg_" + v, -1.0), ("same_" + v, 1.0)):
+                g = got[nm]
+                if isinstance(g, str) or g is None or len(g) != len(base) or any(abs(x - sg * y) > 1e-9 * (1 + abs(y)) for x, y in zip(g, base)):
+                    ctx.violation("alias/accessor", rep, what="%s of %s is %s, of %s it is %s (expected the %s)" % (
+                        q["kind"], v, str(base)[:80], nm, str(g)[:80], "negation" if sg < 0 else "same"))
+                    break
+        after = {mm: {k: (np.array(ts.times), np.array(ts.values)) for k, ts in p.history(mm).items()} for mm in range(E)}
+        for mm in range(E):
+            for k in before[mm]:
+                if not (np.array_equal(before[mm][k][0], after[mm][k][0]) and np.array_equal(before[mm][k][1], after[mm][k][1], equal_nan=True)):
+                    ctx.violation("alias/history-mutated", {"spec": s, "queries": qs, "variable": k, "member": mm,
+                                                            "before": before[mm][k][1].tolist(), "after": after[mm][k][1].tolist()},
+                                  what="accessor calls changed the stored history of %s from %s to %s" % (k, before[mm][k][1].tolist(), after[mm][k][1].tolist()))
+
+
+_run_core = run
+
+
+def run(ctx):  # noqa: F811
+    _run_core(ctx)
+    if not os.environ.get("VERIF_REPLAY"):
+        alias_checks(ctx)
